@@ -408,7 +408,15 @@ def _r2(ctx, pkg):
     # by role: the snapshot is the list the re-adding loop iterates
     adds = [f for f in sfl.facts if f.kind == "call" and f.target in ("add_reaction", "_add_reaction") and f.value and f.value[0] == "meth" and simp(f.value[1]) == SELF]
     looped = [f for f in adds if f.loops]
-    if not looped or any(f.loops[0].kind != "for" for f in looped) or len(looped) != 1:
+    # a queue drained from the front -- `while q: self.add_reaction(q.popleft())` (or .pop(0)), q tested for emptiness only -- visits the
+    # members of q in order, as `for x in q` does
+    drained = None
+    if len(looped) == 1 and looped[0].loops[0].kind == "while" and len(looped[0].loops) == 1 and len(looped[0].value[3]) == 1:
+        arg, test = simp(looped[0].value[3][0]), simp(looped[0].loops[0].iter[1])
+        if arg[0] == "meth" and arg[1] == test and ((arg[2] == "popleft" and not arg[3]) or (arg[2] == "pop" and arg[3] == (("const", 0),))) and not arg[4] \
+                and sum(1 for f in sfl.facts if looped[0].loops[0] in f.loops) == 1:
+            drained = test
+    if not looped or (any(f.loops[0].kind != "for" for f in looped) and drained is None) or len(looped) != 1:
         if not adds and not unread:
             ctx.bad("R2", SETTER, (NF, st.lineno), "the setter installs a new allowed list without re-examining the reactions through add_reaction: reactions admitted under the old list stay, "
                     "skipped ones are never re-admitted", expected="for reaction in reaction_list + _skipped_reactions: self.add_reaction(reaction)", found="no call of add_reaction")
@@ -416,14 +424,14 @@ def _r2(ctx, pkg):
             ctx.unrec("R2", SETTER, (NF, st.lineno), "how the setter re-examines the recorded reactions is not understood (expected one `for` loop calling self.add_reaction)")
         return
     radd = looped[0]
-    it0 = simp(radd.loops[0].iter)
+    it0 = drained if drained is not None else simp(radd.loops[0].iter)
     rec = [e for lst in sfl.assigns.values() for e in lst if simp(e[0]) == it0]
     from .c09 import _unwrap_seq
     snap = _unwrap_seq(it0)
     while snap[0] == "call" and snap[1] in (("global", "deque"), ("attr", ("global", "collections"), "deque")) and len(snap[2]) == 1 and not snap[3]:
         snap = _unwrap_seq(snap[2][0])
     ops = [simp(o) for o in _concat_operands(snap)]
-    arg_ok = len(radd.value[3]) == 1 and simp(radd.value[3][0])[0] == "elem"
+    arg_ok = len(radd.value[3]) == 1 and (simp(radd.value[3][0])[0] == "elem" or drained is not None)
     if not rec or not all(o[0] == "attr" and o[1] == SELF for o in ops) or not arg_ok:
         ctx.unrec("R2", SETTER, (NF, radd.line), f"the collection whose members are re-added is not a recorded concatenation of the network's own lists: {show(it0)[:100]}")
         return
@@ -1219,3 +1227,14 @@ BENIGN += [{"name": "setter-clears-the-lists-in-place", "file": NF, "old": "    
 RXF = "naunet/reactions/reaction.py"
 MUTANTS += [{"name": "base-preprocessing-drops-hash-lines", "file": RXF, "old": '        """\n\n        return line\n', "new": '        """\n\n        if line.startswith("#"):\n            return ""\n\n        return line\n', "rules": ["R8"]}]
 BENIGN += [{"name": "base-preprocessing-returns-through-a-local", "file": RXF, "old": '        """\n\n        return line\n', "new": '        """\n\n        kept = line\n        return kept\n'}]
+
+
+def _setter_queue(snapshot="self.reaction_list + self._skipped_reactions"):
+    return [{"file": NF, "old": "import logging\n", "new": "import logging\nfrom collections import deque\n"},
+            {"file": NF, "old": "        recorded_reactions = self.reaction_list + self._skipped_reactions\n", "new": "        recorded_reactions = deque(" + snapshot + ")\n"},
+            {"file": NF, "old": "        for reaction in recorded_reactions:\n            self.add_reaction(reaction)\n",
+             "new": "        while recorded_reactions:\n            self.add_reaction(recorded_reactions.popleft())\n"}]
+
+
+BENIGN += [{"name": "setter-drains-a-queue-of-the-recorded-reactions", "edits": _setter_queue()}]
+MUTANTS += [{"name": "setter-queue-forgets-the-skipped-reactions", "edits": _setter_queue("self.reaction_list"), "rules": ["R2"]}]
